@@ -86,7 +86,9 @@ func TextPlain(r *rand.Rand, max int) string {
 
 // TextAny: anything, including control characters, separators, invalid UTF-8 and the empty string.
 func TextAny(r *rand.Rand, max int) string {
-	switch r.Intn(10) {
+	switch r.Intn(12) {
+	case 10: // white space around the value (what a "trim" cleanup would change)
+		return Pick(r, []string{" ", "\n", "\t ", ""}) + TextSafe(r, max) + Pick(r, []string{" ", "\n", "  \n", "\t"})
 	case 0:
 		return ""
 	case 1:
